@@ -269,6 +269,9 @@ func build(tier string) []*explore.Scenario {
 		bb := b
 		if p.Inbound+p.Connects+p.Listeners >= 3 || p.Connects >= 2 {
 			bb = b - 1 // many goroutines (one read loop per channel): one preemption less
+			if tier == "thorough" {
+				bb = 1 // these plans need > 15 min at two preemptions
+			}
 		}
 		sc := scenario(p, bb)
 		if p.Inbound+p.Connects+p.Listeners >= 3 {
